@@ -21,7 +21,7 @@ CLAIMED = {
         "sub-parser with a dominating trailing-data check; the NSEC window validator admits only what the "
         "unchecked iterator can read; no unguarded narrow arithmetic on header counts; no explicit panic macro "
         "under a wire-derived branch and no unaudited unwrap of a parse result in 890+ bodies reachable from "
-        "the read-side API. Absence of all panics and termination of every rdata parser are not decided.",
+        "the read-side API. a wire-derived range end into a fixed-size buffer is dominated by a bound <= the buffer length; ParsedName::skip and parse accept the same maximum name length; no accessor of Txt reads octet 0 without establishing it exists (zero-length TXT data is accepted from the wire). Absence of all panics and termination of every rdata parser are not decided.",
         design_ref="DESIGN.md §4 C01",
     ),
     "C02": dict(
@@ -32,7 +32,7 @@ CLAIMED = {
         "after limit and append checks; each section builder increments its own header count; "
         "StreamTarget rewrites the length shim after every length change; every compression position "
         "that can be OR-ed with 0xC000 was stored behind a guard <= 0x4000; compressors forget "
-        "positions on truncate; RDLENGTH back-patch shape. Does not decide value-level round-trip "
+        "positions on truncate; RDLENGTH back-patch shape. record types whose compose compresses a name return None for rdlen(compress = true). Does not decide value-level round-trip "
         "equality.",
         design_ref="DESIGN.md §4 C02",
     ),
@@ -43,11 +43,12 @@ CLAIMED = {
         text="Decides structural necessary conditions of C03: on every success path of NameBuilder's appending "
         "methods the guards taken imply len+appended <= 254 (255 absolute) and label payload <= 63 "
         "(CharStrBuilder <= 255); append_label/append_name restore head on error; parse_ref caps the "
-        "accumulated length at 254 in both phases (sibling agreement), skip/check_slice use 255/254; the "
+        "accumulated length at exactly 254 in both phases (sibling agreement), skip accepts exactly 255 in total, check_slice uses 255/254; the "
         "label-type classifiers map exactly 0x00..0x3F to labels and 0xC0..0xFF to pointers (all 256 octets "
         "enumerated); every call of an unsafe constructor of Name/RelativeName/Label/CharStr is "
         "validator-dominated, a re-wrap of a validated value, inside an unsafe fn, or audited with a reason; "
-        "Label's Display prints raw only octets the reader accepts unescaped (all 256 octets). One known "
+        "Label's Display prints raw only octets the reader accepts unescaped (all 256 octets). NameBuilder methods call end_label while head still names the label; ParsedName.compressed is false only if no pointer was followed after the first counted label; Name::slice/range refuse ranges that reach the root label; the zone-file label converter admits exactly 63 payload octets. One known "
+        "findingOne known "
         "finding (off-by-one pinned by a test). Round-trip equality is not decided.",
         design_ref="DESIGN.md §4 C03",
     ),
@@ -61,7 +62,8 @@ CLAIMED = {
         "self and other (~690 sites); Label eq/cmp/hash and the canonical forms fold case with ASCII "
         "lower-casing only; Hash/Eq/Ord of all name types are label-wise, never over raw octets; each record "
         "type's canonical_cmp compares fields in canonical wire order with the comparator matching the "
-        "canonical encoding of the field; Record::canonical_cmp is class, owner, type, rdata. Transitivity "
+        "canonical encoding of the field; Record::canonical_cmp is class, owner, type, rdata. per field, the kind of value hashed equals the kind of value compared (a field compared as CharStr or name is never hashed as raw octets); ParsedName.compressed provenance (shared with C03). Transitivity "
+        "for all valuesTransitivity "
         "for all values and RFC 4034 6.1 itself are not decided.",
         design_ref="DESIGN.md §4 C04",
     ),
@@ -74,7 +76,8 @@ CLAIMED = {
         "name encoding; the canonical form differs from the plain form exactly by lower-casing the names the "
         "RFCs list; rdlen's fixed part equals the sum of the fixed field widths and its variable part names "
         "the same fields; each type tests and reports its own RTYPE, equal to the IANA number and pairwise "
-        "distinct; enum dispatchers call the same-named method per variant with an opaque fallback. Types "
+        "distinct; enum dispatchers call the same-named method per variant with an opaque fallback. types that compress names announce no length for rdlen(true); pointer-like forwarding impls (&T, Box<T>, ...) of the codec traits forward each method to the same-named method. Types "
+        "the extractor cannot modelTypes "
         "the extractor cannot model are listed as undecided in the evidence. Value equality after a "
         "round-trip is not decided.",
         design_ref="DESIGN.md §4 C05",
@@ -87,7 +90,7 @@ CLAIMED = {
         "resolvable, Scan reads the fields in the order ZonefileFmt writes them; every octet the entry reader "
         "(Symbol::is_word_char and friends) treats as a delimiter, quote, comment or escape is escaped by "
         "Label's Display; no mnemonic is emitted for a Class that the reader resolves as an Rtype (or vice versa); "
-        "convert_label admits labels up to exactly 63 octets. Value-level round-trip equality over all record "
+        "convert_label admits labels up to exactly 63 octets. every FormatWriter writes `(` in begin_block under the same condition as `)` in end_block; convert_entry converts a token only after establishing that the entry has not ended. Value-level round-trip equality over all recordValue-level round-trip equality over all record "
         "sets is not decided.",
         design_ref="DESIGN.md §4 C06",
     ),
@@ -116,7 +119,7 @@ CLAIMED = {
         "branches in net::xfr::protocol; ZoneUpdater::apply commits only in the BeginBatchDelete and Finished arms "
         "(after the SOA update), rejects updates once finished, and nobody else commits the writer; abandoned work "
         "is rolled back (rollback/remove_all field coverage, Drop of a dirty writer, Versioned guard table - rules "
-        "shared with C09). Fidelity of reconstruction, diff algebra and batching are not decided.",
+        "shared with C09). The closing SOA is compared with the opening SOA as a whole record; the old side of the recorded diff is read at the last published version in update_rrset and remove_rrset alike. Fidelity of reconstruction, diff algebra and batching are not decided.",
         design_ref="DESIGN.md §4 C10",
     ),
     "C11": dict(
@@ -130,7 +133,7 @@ CLAIMED = {
         "truncation floor and a constant-time comparison only; TSIG must be last and unique; the unsigned-run "
         "counter is a guarded increment (<100) reset on signed messages and checked by done(); digest input "
         "widths equal wire widths (other data 6 == announced Other Len); every ValidationError variant "
-        "compare_signatures can return is mapped to its RFC 8945 RCODE. MAC values and multi-message chaining "
+        "compare_signatures can return is mapped to its RFC 8945 RCODE. Time48::eq_fudged is true only inside a two-sided window (linear form of both guards); the key name enters the digest in canonical form; every MAC chained into a later digest is the MAC as transmitted (Key::signature_slice or the received field). MAC values and multi-message chaining "
         "values are not decided.",
         design_ref="DESIGN.md §4 C11",
     ),
@@ -143,7 +146,7 @@ CLAIMED = {
         "compose_canonical on every branch (only the literal wildcard label raw), then type, class, the RRSIG's "
         "original TTL and the canonical length-prefixed RDATA, matching Record::compose_canonical; both sides "
         "order RRs with canonical_cmp; rrsig_label_count tests only the leftmost label for `*` and the signer puts "
-        "it into the Labels field. Cryptography, key tags and DS digests are not decided.",
+        "it into the Labels field. The scratch buffer is cleared on every path before the signed data is composed and is what sign_raw receives. Cryptography, key tags and DS digests are not decided.",
         design_ref="DESIGN.md §4 C12",
     ),
     "C14": dict(
@@ -156,7 +159,7 @@ CLAIMED = {
         "the only non-false result is the verification's; the signature cache key covers signed data, full RRSIG "
         "RDATA and key, and stores check_sig's verdict; the NSEC non-existence proof tests target.ends_with(owner) "
         "before excluding delegation/DNAME owners; no unaudited unwrap/expect on parse/decode results derived from "
-        "upstream content in any validator body; signature times use the RFC 1982 order. Completeness of the chain "
+        "upstream content in any validator body; signature times use the RFC 1982 order. The digests in the signature-cache key read the buffers the RRSIG and DNSKEY RDATA were composed into; a DNSKEY is accepted as trust anchor only on whole-record equality (DS anchors: digest equality after a successful digest); the NSEC3 closest-encloser flag is re-decided on every iteration over the candidate names. Completeness of the chain "
         "walk and denial proofs in general are not decided.",
         design_ref="DESIGN.md §4 C14",
     ),
@@ -171,7 +174,7 @@ CLAIMED = {
         "edge of is_answer/check_stream and look the waiter up by the reply's ID; the slot is removed before "
         "delivery, re-inserted only for streams; Queries adjusts count only when a slot was actually vacated / "
         "filled and bounds indices to 16 bits; a truncated datagram answer is retried over the stream and never "
-        "returned. Schedules, timeouts and exactly-once under cancellation are not decided.",
+        "returned. Every await in multi_stream::Request::get_response is wrapped in timeout(remaining, ..). Schedules, timeouts and exactly-once under cancellation are not decided.",
         design_ref="DESIGN.md §4 C15",
     ),
     "C17": dict(
@@ -266,7 +269,12 @@ def main():
             "level_note": "Decides the listed structural clauses, not the behaviour. Trusted base: rustc "
                           "nightly front end / MIR builder / const evaluator, Instance::try_resolve, the "
                           "domain-facts serialiser, and the hand-frozen tables in rules/ (each with its "
-                          "reason). Path-insensitive CFG reasoning over-approximates feasible paths.",
+                          "reason). Path-insensitive CFG reasoning over-approximates feasible paths. Functions not "
+                          "listed in rules/known_fns.txt are analysed inlined into their callers. Tiers: quick = "
+                          "all rules over the all-features extraction; thorough = the same verdict plus positive "
+                          "controls (every stored property-breaking change that names this check is applied to a "
+                          "scratch copy of the current tree and must be reported by its rule; reported in the "
+                          "evidence, never part of the verdict).",
             "technique": c["technique"],
         })
     na = []
